@@ -595,11 +595,14 @@ def explore_reserialise(ctx):
     F = Findings()
     members = [("20200229", "DATE"), ("20200229T235959", "DATE-TIME"), ("20200229T235959Z", "DATE-TIME (UTC)"),
                ("235959", "TIME"), ("235959Z", "TIME (UTC)"), ("P1W", "DURATION"), ("-PT15M", "DURATION"),
-               ("20200101T000000Z/PT1H", "PERIOD")]
+               ("20200101T000000Z/PT1H", "PERIOD"),
+               # not RFC forms, but texts the decoders must answer with a value or ValueError
+               ("20200101/20200102", "period of two DATEs"), ("20200101/P1D", "period of a DATE and a duration"),
+               ("20200101T000000/20200102", "period of a DATE-TIME and a DATE"), ("235959/PT1H", "period of a TIME")]
     shells = [("prop.vRecur", "FREQ=DAILY;UNTIL={}", "RECUR rule with UNTIL"),
               ("prop.vRecur", "FREQ=DAILY;COUNT=2;X-PART={}", "RECUR rule with an extension part"),
               ("prop.vDDDLists", "{}", "one-element list"), ("prop.vDDDLists", "{0},{0}", "list"),
-              ("prop.vDDDTypes", "{}", "single value")]
+              ("prop.vDDDTypes", "{}", "single value"), ("prop.vPeriod", "{}", "period value")]
     for cq, shell, what in shells:
         ci = model.cls(cq)
         for text, kind in members:
@@ -614,9 +617,9 @@ def explore_reserialise(ctx):
                         F.add("decode total", f"{ci.name}.from_ical of a {what} holding a {kind} raises "
                               f"{e.cls_name}", text=src)
                     continue
-                obj = val if isinstance(val, Obj) and val.cls is not None and \
-                    model.lookup_method(val.cls, "to_ical") is not None else it.instantiate(ci, [val], {})
                 try:
+                    obj = val if isinstance(val, Obj) and val.cls is not None and \
+                        model.lookup_method(val.cls, "to_ical") is not None else it.instantiate(ci, [val], {})
                     raw = it.call(it.getattr(obj, "to_ical"), [], {})
                 except AbsRaise as e:
                     if "ValueError" not in it.exc_bases(e.cls_name):
@@ -653,16 +656,22 @@ def explore_scalars(ctx):
     big = 2 ** 53
     samples = {
         "vInt": [0, 1, -1, 7, 2 ** 31 - 1, -2 ** 31, big + 1, -(big + 1), 2 ** 63 - 1, 10 ** 20 + 1],
-        "vFloat": [0.0, 1.5, -2.25, 1000000.5, 0.1, 123456789.125],
+        "vFloat": [0.0, 1.5, -2.25, 1000000.5, 0.1, 123456789.125, 2.5e-07, 1.25e-05, -7.1e-07, 1e-10,
+                   123456789012345.6, 1e16, 3.0e22],
+        "vGeo": [(51.4778125, -0.0000125), (1e-07, -1e-07), (48.85299, 2.36885), (0.0, 0.0), (-89.9999999, 179.9999999)],
         "vBoolean": [True, False],
         "vUri": ["http://example.com/a?b=c", "mailto:a@b"], "vCalAddress": ["mailto:a@example.com"],
         "vWeekday": ["MO", "SU", "+1MO", "-2SU", "53FR"], "vFrequency": ["DAILY", "YEARLY"],
-        "vMonth": [1, 12, "5L"],
+        "vMonth": [1, 12, "5L", "10L", "12L", "13L"],
+        "vBinary": ["", "a", "text with \u00e9 and \U0001F600", "x" * 100],
     }
     texts = {"vInt": [("0", 0), ("-12", -12), ("+7", 7), ("007", 7), ("9007199254740993", big + 1),
                       ("18014398509481985", 2 ** 54 + 1)],
              "vFloat": [("1.5", 1.5), ("-0.25", -0.25), ("+3.0", 3.0), ("10", 10.0)],
-             "vBoolean": [("TRUE", True), ("FALSE", False)]}
+             "vBoolean": [("TRUE", True), ("FALSE", False), ("true", True), ("False", False)],
+             "vGeo": [("+48.85299;+2.36885", (48.85299, 2.36885)), ("-33.5;151.25", (-33.5, 151.25)), ("0;0", (0.0, 0.0))],
+             "vFrequency": [("DAILY", "DAILY"), ("daily", "DAILY"), ("Weekly", "WEEKLY")],
+             "vWeekday": [("mo", "MO"), ("-1su", "-1SU")]}
     for cname, vals in sorted(samples.items()):
         ci = model.cls(f"prop.{cname}", required=False)
         if ci is None:
@@ -676,8 +685,23 @@ def explore_scalars(ctx):
                 text = raw.decode("utf-8") if isinstance(raw, bytes) else raw
                 if not isinstance(text, str) or is_opaque_text(text):
                     raise Unsupported(f"{cname}.to_ical returned {raw!r}")
-                back = num(it.call(it.getattr(ClassVal(ci), "from_ical"), [text], {}))
+                back_obj = it.call(it.getattr(ClassVal(ci), "from_ical"), [text], {})
+                # text -> value -> text is stable (the decoded value writes the same text again)
+                if isinstance(back_obj, Obj) and back_obj.cls is not None and \
+                        model.lookup_method(back_obj.cls, "to_ical") is not None:
+                    again = it.call(it.getattr(back_obj, "to_ical"), [], {})
+                    again = again.decode("utf-8") if isinstance(again, bytes) else again
+                    if again != text:
+                        F.add("round trip", f"{cname}: the text {text!r} written for {v!r} decodes to a value "
+                              f"that is written as {again!r}", value=repr(v), text=text)
+                back = num(back_obj)
                 want = v if cname != "vMonth" else (int(str(v).rstrip("L")))
+                if cname == "vBinary":
+                    want = v.encode("utf-8")        # the decoder returns the octets
+                if cname == "vMonth" and isinstance(v, str):
+                    leap = back_leap = None
+                if cname == "vGeo":
+                    back = tuple(back) if isinstance(back, (list, tuple)) else back
                 if cname == "vWeekday":
                     want = str(v)
                     back = it._str(back) if not isinstance(back, str) else back
